@@ -1,6 +1,7 @@
 """C09 — container series keep their length and dtype under every assignment history."""
 import copy
 import itertools
+import json
 
 import lib
 import container_common as cc
@@ -156,11 +157,23 @@ def rand_key(rng, span, names):
     return [rng.choice(['t3', 'ko'])]
 
 
-def rand_op(rng, span, kind, nrows_hint, pool=None):
+def rand_op(rng, span, kind, nrows_hint, pool=None, cross=True):
     VARS = pool if pool is not None else globals()['VARS']
     n = len(span)
     r = rng.random()
     vc = kind == 'vc'
+    if cross and rng.random() < 0.05:
+        # histories across instances: a copy / reindexed copy is made and operated on (the object under test must not notice), the
+        # object is replaced by its copy, an attribute is read before what follows
+        q = rng.random()
+        how = rng.choice(['copy', 'reindex', 'deepcopy'])
+        if q < 0.4:
+            return ['fork', how, rand_op(rng, span, kind, nrows_hint, pool=pool, cross=False)]
+        if q < 0.6:
+            return ['sib', rand_op(rng, span, kind, nrows_hint, pool=pool, cross=False)]
+        if q < 0.8:
+            return ['become', how]
+        return ['getattr', rng.choice(VARS)]
     if r < 0.05:
         # public read-only hooks: they must leave the object exactly as it was
         q = rng.choice(['completions', 'dir', 'contains', 'contains'] + ([] if kind == 'linker' else ['nbytes']))
@@ -258,6 +271,10 @@ def reduced_alphabet():
     ]
 
 
+def li3(*xs):
+    return ['L', [S(['i', x]) for x in xs]]
+
+
 def gen(rng, tier):
     cases = []
     # fixed boundary cases first
@@ -280,6 +297,21 @@ def gen(rng, tier):
         ['setitem', ['sl', 'Y', 12, 10, -1], ['L', [S(['i', 7]), S(['i', 8]), S(['i', 9])]]],
         ['setattr', 'strict', S(['b', 1])], ['setattr', 'values', S(['i', 5])], ['setattr', 'strict', S(['b', 0])],
         ['setattr', 'values', S(['i', 5])], ['setattr', 'strict', S(['b', 1])], ['setattr', 'values', S(['i', 6])]]})
+    # fixed-width string series under whole-series assignment of other widths; histories across copies
+    sl = lambda *xs: ['L', [S(['s', x]) for x in xs]]      # noqa: E731
+    cases.append({'kind': 'model', 'span': [10, 11, 12], 'strict': False, 'names': ['X'], 'dreq': 'f', 'default': S(['f', 0]), 'ivs': [],
+                  'extra': 0, 'ops': [
+        ['setattr', 'status', sl('ab', 'c', '')], ['setitem', ['n', 'status'], sl('xyz', 'bc', 'a')], ['setattr', 'status', S(['s', 'bc'])],
+        ['addvar', 'T', sl('a', 'bc', 'xyz'), None], ['setattr', 'T', sl('xyzxyz', '', 'b')], ['setitem', ['sl', 'T', 10, 11, None], sl('qqqqq', 'r')],
+        ['addvar', 'U', S(['s', 'xyz']), 's'], ['setattr', 'U', S(['i', 12])], ['setattr', 'values', S(['s', 'bc'])],
+        ['fork', 'reindex', ['addvar', 'N', S(['i', 1]), None]], ['addvar', 'M', S(['i', 2]), None], ['sib', ['addvar', 'M2', S(['i', 3]), None]],
+        ['fork', 'copy', ['addattr', 'foo', S(['i', 1])]], ['addattr', 'foo', S(['i', 2])], ['sib', ['setattr', 'X', S(['i', 9])]],
+        ['become', 'reindex'], ['addvar', 'P', S(['i', 1]), None], ['sib', ['addvar', 'P2', S(['i', 1]), None]], ['setattr', 'strict', S(['b', 1])],
+        ['sib', ['setattr', 'bar', S(['i', 1])]], ['become', 'copy'], ['sib', ['setattr', 'strict', S(['b', 0])]], ['setattr', 'bar', S(['i', 1])],
+        ['getattr', 'X'], ['become', 'deepcopy'], ['setitem', ['l', 'X', 10], S(['i', 5])], ['sib', ['setitem', ['l', 'X', 11], S(['i', 6])]]]})
+    cases.append({'kind': 'vc', 'span': [10, 11, 12], 'strict': False, 'ops': [
+        ['addvar', 'X', li3(1, 2, 3), None], ['fork', 'reindex', ['addvar', 'Y', S(['i', 1]), None]], ['fork', 'copy', ['addvar', 'Z', S(['i', 1]), None]],
+        ['become', 'reindex'], ['sib', ['addvar', 'W', S(['i', 1]), None]], ['addvar', 'W', S(['f', 3]), None], ['query', 'completions']]})
     alpha = reduced_alphabet()
     depth = 3
     seqs = list(itertools.product(range(len(alpha)), repeat=depth))
@@ -336,6 +368,8 @@ def _target_names(op):
     t = op[0]
     if t == 'query':
         return [op[1][1]] if isinstance(op[1], list) else []
+    if t in cc.CROSS_OPS:
+        return []
     if t in ('addvar', 'setattr', 'addattr'):
         return [op[1]]
     if t == 'setitem':
@@ -415,6 +449,14 @@ def oracle(case, obs):
         if stp.get('values_set_ok') is False:
             bad('values|setter-content', 'op %d: obj.values = v was accepted but the series do not hold the assigned rows '
                 '(row i -> i-th declared variable, cast to its dtype)' % i)
+        # ---- another instance is made / used, the object is replaced by its copy, an attribute is read: the object under test is
+        #      exactly what it was (a copy is equal to its original and shares nothing with it)
+        if op[0] in cc.CROSS_OPS:
+            if {k: v for k, v in st.items() if k != 'values_rows_ok'} != {k: v for k, v in prev.items() if k != 'values_rows_ok'}:
+                changed = [k for k in st if k != 'values_rows_ok' and st[k] != prev.get(k)]
+                bad('cross-instance|state-changed', 'op %d %s: the object differs afterwards in %s' % (i, json.dumps(op)[:120], changed))
+            prev = st
+            continue
         # ---- read-only hooks: nothing changes; what they return
         if op[0] == 'query':
             if {k: v for k, v in st.items() if k != 'values_rows_ok'} != {k: v for k, v in prev.items() if k != 'values_rows_ok'}:
